@@ -74,7 +74,8 @@ proof {
 
 @fn src/filedb/inner/val.rs | - | check_valrecf_header
 @opts refusal
-@serves C13
+@refusal-implies !(rd(old(file)@.bytes, 0, 8) == sig_v() && rd(old(file)@.bytes, 8, 8) == signature2@ && le64_at(old(file)@.bytes, 16) == 0)
+@serves C13 C02
 @requires
 old(file)@.bytes.len() >= 24
 @ensures
